@@ -235,11 +235,11 @@ KF_C06b(a) == Kind(a) = "setup_tok" /\ armed                      \* SETUP token
 KF_C06c(a) == a.a = "data" /\ a.ok /\ Len(a.bytes) = 8 /\ armed /\ ctx.k # "setup"   \* data not adjacent to its token
 KF_C07(a)  == Kind(a) = "setup_data" /\ ValidSetupData(a) /\ stale       \* SETUP while a standard request is unfinished
 KF_C07b(a) == Kind(a) = "ack" /\ ctx.ep # 0 /\ unacked /\ xf.st = "din" /\ xf.type = 0 /\ xf.req = 6   \* foreign ACK while a descriptor packet is unacknowledged
-KF_C08c(a) == Kind(a) = "ack" /\ ctx.ep # 0 /\ stale /\ xf.type = 0 /\ xf.req = 1     \* foreign ACK while CLEAR_FEATURE pending
+(* (C08c, "CLEAR_FEATURE consumed by a foreign ACK", was repaired in /repo 831e53c: no carve-out any more.) *)
 KF_C20a(a) == a.a = "data" /\ a.ok /\ ctx.k = "btok" /\ lastOut \in OutEps         \* data after an unreadable token, an OUT endpoint addressed before
 KF_C08(a)  == Kind(a) = "ack" /\ ctx.ep # 0 /\ stale /\ xf.type = 0 /\ xf.req \in {5, 9}   \* foreign ACK while SET_x pending
 KfTrip(a) == IF KF_C06b(a) THEN "C06b" ELSE IF KF_C06c(a) THEN "C06c"
-           ELSE IF KF_C07(a) THEN "C07" ELSE IF KF_C07b(a) THEN "C07b" ELSE IF KF_C08(a) THEN "C08" ELSE IF KF_C08c(a) THEN "C08c" ELSE IF KF_C20a(a) THEN "C20a" ELSE "none"
+           ELSE IF KF_C07(a) THEN "C07" ELSE IF KF_C07b(a) THEN "C07b" ELSE IF KF_C08(a) THEN "C08" ELSE IF KF_C20a(a) THEN "C20a" ELSE "none"
 
 ArmedAfter(a) ==
     LET k == Kind(a) IN
@@ -263,7 +263,9 @@ StaleAfter(a, r) ==
     ELSE IF xf.type # 0 THEN stale
     ELSE IF k \in {"in0", "out0_data"} /\ r.k = "STALL" /\ xf.req # 1 THEN FALSE
     ELSE IF k = "out0_data" /\ r.k = "ACK" THEN FALSE
-    ELSE IF k = "ack" /\ xf.req \in {1, 5, 9} THEN FALSE
+    ELSE IF k = "ack" /\ xf.req \in {5, 9} THEN FALSE              \* (any host ACK ends these: finding C08)
+    ELSE IF k = "ack" /\ ctx.ep = 0 /\ xf.req = 1 THEN FALSE       \* CLEAR_FEATURE: the ACK of its own status ZLP; a STALLed
+                                                                  \* one stays pending (part of finding C07)
     ELSE stale
 
 -----------------------------------------------------------------------------
